@@ -1,17 +1,10 @@
-import Shisui.Gossip
+import Shisui.GossipRel
 import Shisui.RadiusCache
 import Driver.Util
 /-! C20 driver: gossip target selection (decidable relation, because the farther covered nodes are shuffled) and the
     radius cache under ping/pong reports (step equality, stateful per peer). -/
 namespace Drv.C20
 open Drv
-
-def allowedB (c : Gs.Ctx) (result : List Nat) : Bool :=
-  let cov := Gs.covered c
-  if cov.length ≤ 4 then result == cov
-  else result.take 4 == cov.take 4 &&
-       (result.drop 4).all (fun n => (cov.drop 4).contains n) && (result.drop 4).length == min 4 (cov.drop 4).length
-       && (result.drop 4).eraseDups.length == (result.drop 4).length
 
 structure RD where
   net : String := ""
@@ -42,7 +35,7 @@ def stepGossip (toks : List String) (impl : String) : Res :=
       ++ (if (match src with | some s => res.contains s | none => false) || kv it "srcqueued" == "1" then ["never_back_to_source"] else [])
       ++ (if res.any (fun n => !cov.contains n) then ["only_covered_known_radius"] else [])
       ++ (if (cov.take 4).any (fun n => !res.contains n) then ["four_closest_included"] else [])
-      ++ (if !allowedB c res then ["selection_rule"] else [])
+      ++ (if !Gs.allowedB c res then ["selection_rule"] else [])
       ++ (if kvNat it "queued" != res.length then ["whole_batch_offered_to_each"] else [])
       ++ (if !sortedIn || entries.length != min 32 tablen then ["closest_32_by_logdist"] else []))
   { model := "", skipCompare := true, monitor := mon,
